@@ -8,6 +8,7 @@
 -/
 import PPV.Lemmas.KTac
 import PPV.Gen.Kernels
+import PPV.Model.GasResults
 
 namespace PPV.Props.C07
 open PPV PPV.Gen PPV.Gen.Kernels
@@ -141,5 +142,49 @@ theorem thermal_branch_differs_only_without_flow (b : BranchRow ℝ) (ti ti1 tnt
   · simp only [thermalBranchNp, hb, hf]; kunfold
   · simp only [thermalBranchNumba]; kunfold
   · simp only [makeLookupsNumba] at hf; kunfold; simp at hf; exact hf
+
+/-! ### gas post-processing twins (`pf/result_extraction.py`: `get_branch_results_gas` vs `get_branch_results_gas_numba`)
+
+`gasResultsNp`, `gasPressuresNumba`, `gasVelNumba` are generated from the source; `GasResults.gasResultsNumba` is the
+hand-written model of the numba wrapper's glue (tied by correspondence).  `Z p T` is the fluid's compressibility, an
+arbitrary function.  Before the repair `fix: gas norm factors with reverse flow` these theorems did not hold: the numpy twin
+took the inlet temperature at the declared from-end and the numba twin the from-node temperature, whichever way the gas
+flowed (witness replayed on the implementation, see KNOWN_FINDINGS.jsonl). -/
+
+open PPV.Model.GasResults in
+/-- absolute and mean pressures of the two twins agree for all inputs (the `isclose` test of numpy and the hand-written
+    tolerance test of the numba kernel are the same predicate; the two ways of writing 2/3·(a³−b³)/(a²−b²) agree) -/
+theorem gas_pressures_np_eq_numba (b : BranchRow ℝ) (nf nt : NodeRow ℝ) (Z : ℝ → ℝ → ℝ) (v pf pt : ℝ) :
+    let x := gasResultsNp b nf nt Z v pf pt; let y := gasResultsNumba b nf nt Z v pf pt
+    x.p_abs_from = y.p_abs_from ∧ x.p_abs_to = y.p_abs_to ∧ x.p_abs_mean = y.p_abs_mean := by
+  simp only [gasResultsNp, gasResultsNumba, gasPressuresNumba, gasVelNumba]
+  kunfold
+  refine ⟨trivial, trivial, ?_⟩
+  by_cases h : |nf.PAMB + pf - (nt.PAMB + pt)| ≤ 1e-8 + 1e-5 * |nt.PAMB + pt|
+  · simp only [h, if_true, not_true_eq_false, if_false]
+  · simp only [h, if_false, not_false_eq_true, if_true]
+    by_cases hd : (nf.PAMB + pf) * (nf.PAMB + pf) - (nt.PAMB + pt) * (nt.PAMB + pt) = 0
+    · simp [hd]
+    · field_simp
+
+/-- the two spellings of the mean pressure used by the twins -/
+theorem mean_pressure_forms (A B : ℝ) :
+    2 / 3 * (A ^ 3 - B ^ 3) / (A * A - B * B) = 2 * (A ^ 3 - B ^ 3) / (3 * (A * A - B * B)) := by
+  by_cases hd : A * A - B * B = 0
+  · simp [hd]
+  · field_simp
+
+open PPV.Model.GasResults in
+/-- norm factors and gas velocities of the two twins agree for all inputs, all flow directions and every compressibility
+    function -/
+theorem gas_results_np_eq_numba (b : BranchRow ℝ) (nf nt : NodeRow ℝ) (Z : ℝ → ℝ → ℝ) (v pf pt : ℝ) :
+    let x := gasResultsNp b nf nt Z v pf pt; let y := gasResultsNumba b nf nt Z v pf pt
+    x.normfactor_from = y.normfactor_from ∧ x.normfactor_to = y.normfactor_to ∧ x.normfactor_mean = y.normfactor_mean ∧
+    x.v_gas_from = y.v_gas_from ∧ x.v_gas_to = y.v_gas_to ∧ x.v_gas_mean = y.v_gas_mean := by
+  simp only [gasResultsNp, gasResultsNumba, gasPressuresNumba, gasVelNumba, wrapperTFrom, wrapperTTo]
+  kunfold
+  simp only [mean_pressure_forms]
+  by_cases h : |nf.PAMB + pf - (nt.PAMB + pt)| ≤ 1e-8 + 1e-5 * |nt.PAMB + pt| <;>
+    by_cases hs : b.FROM_NODE_T_SWITCHED = 0 <;> simp [h, hs]
 
 end PPV.Props.C07
